@@ -437,6 +437,8 @@ pub enum Op {
     SetReady(bool),
     SetFlush(bool),
     Fault(&'static str),
+    FaultSkip(u64),
+    SelfWake(bool),
     Take(usize),
     Advance(u64),
     Settle,
@@ -505,6 +507,8 @@ impl Op {
             ["set-ready", b] => Some(Op::SetReady(*b == "1")),
             ["set-flush", b] => Some(Op::SetFlush(*b == "1")),
             ["fault", k] => Some(Op::Fault(fault_kind(k)?)),
+            ["fault-skip", n] => Some(Op::FaultSkip(n.parse().ok()?)),
+            ["self-wake", b] => Some(Op::SelfWake(*b == "1")),
             ["take", n] => Some(Op::Take(n.parse().ok()?)),
             ["advance", n] => Some(Op::Advance(n.parse().ok()?)),
             ["settle"] => Some(Op::Settle),
@@ -530,6 +534,8 @@ impl Op {
             Op::SetReady(b) => format!("set-ready {}", *b as u8),
             Op::SetFlush(b) => format!("set-flush {}", *b as u8),
             Op::Fault(k) => format!("fault {k}"),
+            Op::FaultSkip(n) => format!("fault-skip {n}"),
+            Op::SelfWake(b) => format!("self-wake {}", *b as u8),
             Op::Take(n) => format!("take {n}"),
             Op::Advance(n) => format!("advance {n}"),
         }
@@ -562,6 +568,9 @@ pub struct Params {
 
 /// `--burst=1` of a generating run: large buffers / limits and bursts of calls.
 pub static GEN_BURST: std::sync::atomic::AtomicU8 = std::sync::atomic::AtomicU8::new(0);
+
+/// `--v2=1` of a generating run: fault countdowns (`fault-skip`) and transports that do not wake on the owner's own flush.
+pub static GEN_V2: std::sync::atomic::AtomicU8 = std::sync::atomic::AtomicU8::new(0);
 
 /// `--sub=` of a generating run (0 none, 1 formatting, 2 OpenTelemetry).
 pub static GEN_SUB: std::sync::atomic::AtomicU8 = std::sync::atomic::AtomicU8::new(0);
@@ -628,6 +637,8 @@ pub fn apply(out: &mut Out, rt: &tokio::runtime::Runtime, cl: &mut Client, op: &
         Op::Eof => cl.sim.borrow_mut().set_eof(),
         Op::SetReady(b) => cl.sim.borrow_mut().set_ready(*b),
         Op::SetFlush(b) => cl.sim.borrow_mut().set_flush(*b),
+        Op::FaultSkip(n) => cl.sim.borrow_mut().fault_skip = *n,
+        Op::SelfWake(b) => cl.sim.borrow_mut().self_wake = *b,
         Op::Fault(k) => {
             let mut s = cl.sim.borrow_mut();
             match *k {
@@ -683,11 +694,18 @@ struct Gen {
     ncalls: u64,
     /// an op the generator has decided to emit next (targeted fault placement)
     forced: std::collections::VecDeque<Op>,
+    v2_done: bool,
 }
 
 fn gen_op(rng: &mut Rng, cl: &Client, g: &mut Gen, p: &Params) -> Op {
     if let Some(op) = g.forced.pop_front() {
         return op;
+    }
+    if GEN_V2.load(Ordering::SeqCst) != 0 && !g.v2_done {
+        g.v2_done = true;
+        if rng.chance(1, 3) {
+            return Op::SelfWake(false);
+        }
     }
     // a burst: many calls queued and abandoned at once, then a live one (work bounds, batch limits)
     if GEN_BURST.load(Ordering::SeqCst) != 0 && g.ncalls + 40 < 120 && rng.chance(1, 12) && !cl.handle_ids().is_empty() {
@@ -730,7 +748,7 @@ fn gen_op(rng: &mut Rng, cl: &Client, g: &mut Gen, p: &Params) -> Op {
         8,                                                                 // 6 advance
         if p.coupled { 0 } else { 3 },                                     // 7 set-ready
         if p.coupled { 3 } else { 0 },                                     // 8 set-flush
-        if p.faults { 2 } else { 0 },                                      // 9 fault
+        if p.faults { if GEN_V2.load(Ordering::SeqCst) != 0 { 4 } else { 2 } } else { 0 },   // 9 fault
         if p.faults { 1 } else { 0 },                                      // 10 inject err / eof
         if handles.is_empty() { 0 } else { 2 },                            // 11 clone / drop handle
         if p.faults && cl.dispatch_alive() { 1 } else { 0 },               // 12 drop-dispatch
@@ -821,7 +839,16 @@ fn gen_op(rng: &mut Rng, cl: &Client, g: &mut Gen, p: &Params) -> Op {
         }
         7 => Op::SetReady(rng.chance(1, 2)),
         8 => Op::SetFlush(rng.chance(1, 2)),
-        9 => Op::Fault(*rng.pick(&["ready", "send", "send", "send", "flush", "close", "next"])),
+        9 => {
+            let f = Op::Fault(*rng.pick(&["ready", "send", "send", "send", "flush", "close", "next"]));
+            // (not in woken-only scripts: a countdown turns the model's few spurious timer wakes into visible differences)
+            if GEN_V2.load(Ordering::SeqCst) != 0 && !p.wo && rng.chance(1, 2) {
+                g.forced.push_back(f);
+                Op::FaultSkip(1 + rng.below(3))
+            } else {
+                f
+            }
+        }
         10 => {
             if rng.chance(1, 2) {
                 Op::InjectErr
@@ -849,7 +876,7 @@ pub fn run_script(out: &mut Out, idx: u64, p: &Params, rng: &mut Rng, script: Op
     simt::take_log();
     let _sub = install_subscriber(p.sub);
     let mut cl = Client::new("d0", p.max, p.buf, p.cap, p.coupled);
-    let mut g = Gen { sent_ids: vec![], answered: vec![], now: 0, deadlines: vec![], ncalls: 0, forced: Default::default() };
+    let mut g = Gen { sent_ids: vec![], answered: vec![], now: 0, deadlines: vec![], ncalls: 0, forced: Default::default(), v2_done: false };
     let mut i = 0usize;
     loop {
         let op = match script {
